@@ -10,6 +10,8 @@
 (*   eol   : a blank line after it / a trailing comment or a blank before it /    *)
 (*           (when flagged joinable) replaced by a colon                         *)
 (*   colon : (when flagged splittable) replaced by a line end                    *)
+(*   other : (when flagged) a blank inserted before / after / around a comma,     *)
+(*           semicolon or operator sign where the source has none                 *)
 (* plus the line-ending convention of the whole file.  Moves only change the     *)
 (* attributes case, width, extra; Canon forgets exactly those, so every move      *)
 (* preserves Canon - the moves are meaning-preserving by the spec's own           *)
@@ -32,6 +34,8 @@ MovesAt(tk) ==
     [] tk.k = "eol" -> {"blankline", "comment", "trailblank", "commentline", "commentblank", "commentlineblank"}
                        \cup (IF tk.join THEN {"join", "joinleft"} ELSE {}) \cup (IF tk.join /\ tk.tight THEN {"jointight"} ELSE {})
     [] tk.k = "colon" -> (IF tk.pad THEN {"pad", "padleft"} ELSE {}) \cup (IF tk.split THEN {"split"} ELSE {})
+    \* a blank where the source has none but one is allowed: before / after / around a comma, a semicolon, an operator sign
+    [] tk.k = "other" -> (IF tk.ins THEN {"insl", "insr", "insboth"} ELSE {})
     [] OTHER -> {}
 
 \* the token after a move: only layout attributes change
@@ -39,7 +43,7 @@ Apply(tk, mv) ==
   CASE mv \in {"upper", "lower", "mixed"} -> [tk EXCEPT !.case = mv]
     [] mv \in {"two", "tab", "none"} -> [tk EXCEPT !.width = mv]
     [] mv \in {"blankline", "comment", "trailblank", "commentline", "commentblank", "commentlineblank"} -> [tk EXCEPT !.extra = mv]
-    [] mv \in {"pad", "padleft"} -> [tk EXCEPT !.width = mv]
+    [] mv \in {"pad", "padleft", "insl", "insr", "insboth"} -> [tk EXCEPT !.width = mv]
     [] mv \in {"join", "jointight", "joinleft"} -> [tk EXCEPT !.k = "colon"]
     [] mv = "split" -> [tk EXCEPT !.k = "eol"]
 
@@ -66,7 +70,7 @@ Init ==
               sites = [i \in SiteSet(s) |->
                          LET tk == Seeds[s].toks[i] IN
                          IF tk.k = "word" THEN cw ELSE IF tk.k = "blank" THEN bw
-                         ELSE IF tk.k = "eol" THEN ew ELSE IF tk.split THEN "split" ELSE "pad"]
+                         ELSE IF tk.k = "eol" THEN ew ELSE IF tk.k = "other" THEN "insboth" ELSE IF tk.split THEN "split" ELSE "pad"]
      \/ /\ mode = "alljoin"      \* every line end that may become a colon does: whole constructs end up on one line
         /\ sites = [i \in {x \in SiteSet(s) : Seeds[s].toks[x].k = "eol" /\ Seeds[s].toks[x].join} |-> "join"]
         /\ DOMAIN sites # {}
